@@ -300,9 +300,9 @@ Qed.
 Lemma facts_ok_inv F : facts_ok F = true ->
   sniff_chain_ok F = true /\ ext_chain_ok F = true /\ cont_chain_ok F = true /\ containers_vs_codecs_ok F = true
   /\ adapters_ok F = true /\ f_writer_passthrough F = true /\ f_path_fallback_sniffs F = true
-  /\ f_stdin_fallback_sniffs F = true.
+  /\ f_stdin_fallback_sniffs F = true /\ f_private_codec_state F = true.
 Proof.
-  unfold facts_ok. intros H. do 7 (apply andb_prop in H; destruct H as [H ?H]). repeat split; assumption.
+  unfold facts_ok. intros H. do 8 (apply andb_prop in H; destruct H as [H ?H]). repeat split; assumption.
 Qed.
 
 Lemma sniff_chain_ok_inv F : sniff_chain_ok F = true ->
@@ -535,7 +535,7 @@ Lemma read_stdin_as_ok c k p : avail e c = true -> is_container F e k p ->
   read_stdin_as F e peek decompress R parse k (compress c p) = Read k (parse k p).
 Proof.
   intros Ha Hk. unfold read_stdin_as, open_stdin_read.
-  destruct (facts_ok_inv F HF) as (_ & _ & _ & _ & _ & _ & _ & ->).
+  destruct (facts_ok_inv F HF) as (_ & _ & _ & _ & _ & _ & _ & -> & _).
   rewrite (sniff_compressed c k p Ha Hk), unwrap_compress. reflexivity.
 Qed.
 
